@@ -349,7 +349,6 @@ WASH = {'B_LT_z0': 1, 'B_LT_z1': 0}
 LAGM = {'B_LT_z0': 0, 'B_LT_z1': 1}
 PI_TF = ('kp * s + ki', 's')
 PID_TF = ('(kp * s + ki) * (1 + s * Td) + s * s * kd', 's * (1 + s * Td)')   # kp + ki/s + s kd/(1 + s Td)
-PID_ACT = ('(kp * s + ki) * (1 + s * kd) + s * s * kd', 's * (1 + s * kd)')  # what Washout(T=kd) gives
 LL2_TF = ('1 + s * T3 + s * s * T4', '1 + s * T1 + s * s * T2')
 
 
@@ -416,9 +415,6 @@ SPEC = {
     'LeadLag2ndOrdZ': [T('tf', *LL2_TF, nz=['T2'], flags={'B_LT2_z1': 0}),
                        T('zero_bypass', '1', '1', eqs=[('T1', '0'), ('T2', '0'), ('T3', '0'), ('T4', '0')],
                          flags={'B_LT1_z1': 1, 'B_LT2_z1': 1, 'B_LT3_z1': 1, 'B_LT4_z1': 1}, doc='all four zero: y = u'),
-                       T('T3_only', '1 + s * T3', '1', eqs=[('T1', '0'), ('T2', '0'), ('T4', '0')], lean=False,
-                         key='leadlag2-LT3-tests-T4', doc='oracle only: LT3 tests T4, so y = u is imposed although T3 != 0 '
-                         '(Lean: Props/C18 leadlag2_LT3_tests_T4)'),
                        S(), R('LeadLag2ndOrd', flags={'B_LT2_z1': 0}, iff=True)],
     'LeadLagLimit': [T('tf', '1 + s * T1', '1 + s * T2', nz=['T2'], flags=IN), S(flags=IN),
                      R('LeadLag', flags=IN, subst={'K': '1'}, doc='inside the limits: the LeadLag equations with K = 1')],
@@ -432,13 +428,12 @@ SPEC = {
     'PITrackAW': [T('tf', *PI_TF, inp='(u - ref)', flags=IN), S(eqs=UREF, flags=IN), R('PIController', flags=IN)],
     'PITrackAWFreeze': [T('tf', *PI_TF, inp='(u - ref)', flags=IN, eqs=[('freeze', '0')]), S(eqs=UREF, flags=IN),
                         R('PITrackAW', eqs=[('freeze', '0')], iff=True)],
-    'PIDController': [T('tf_partial', *PID_TF, inp='(u - ref)', nz=['kd'], excl=[('Td', 'kd')], key='pid-ignores-Td',
-                        doc='DEFECT pid-ignores-Td: Washout(T=kd); documented kp+ki/s+s kd/(1+sTd) only when Td = kd'),
-                      T('tf_actual', *PID_ACT, inp='(u - ref)', nz=['kd'], doc='kp + ki/s + s kd/(1 + s kd)'),
+    'PIDController': [T('tf', *PID_TF, inp='(u - ref)', nz=['Td'],
+                        doc='Washout(T=Td): documented kp+ki/s+s kd/(1+sTd) (T was kd on the pinned tree: pid-ignores-Td, repaired)'),
                       S(eqs=UREF)],
-    'PIDAWHardLimit': [T('tf_partial', *PID_TF, inp='(u - ref)', nz=['kd'], excl=[('Td', 'kd')], key='pidaw-ignores-Td', flags=INHL,
-                         doc='DEFECT pid-ignores-Td'),
-                       T('tf_actual', *PID_ACT, inp='(u - ref)', nz=['kd'], flags=INHL), S(eqs=UREF, flags=INHL)],
+    'PIDAWHardLimit': [T('tf', *PID_TF, inp='(u - ref)', nz=['Td'], flags=INHL,
+                         doc='Washout(T=Td) (pidaw-ignores-Td, repaired)'),
+                       S(eqs=UREF, flags=INHL)],
     'PIDTrackAW': [T('tf', *PID_TF, inp='(u - ref)', nz=['Td'], flags=IN, doc='Washout(T=Td): documented PID'),
                    S(eqs=UREF, flags=IN)],
     # non-linear / static blocks: equations exported for the hand-written theorems of Props/C18.lean
